@@ -5,6 +5,7 @@ use std::collections::BTreeMap;
 use std::io::Write;
 
 pub mod hll;
+pub mod structs;
 
 pub struct Failure {
     pub case: u64,
@@ -108,6 +109,20 @@ pub fn split_cases<'a>(ops: &'a [String], ans: &'a [String]) -> Vec<(u64, usize,
 fn generate(prop: &str, ctx: &mut Ctx) {
     match prop {
         "C17" => hll::gen_c17(ctx),
+        "SMOKE" => {
+            let n = 30 * ctx.tier_scale;
+            for _ in 0..n {
+                ctx.case("bloom"); structs::bloom_history(ctx, 80);
+                ctx.case("set"); structs::set_history(ctx, 40);
+                ctx.case("cms"); structs::cms_history(ctx, 80);
+                ctx.case("cuckoo"); structs::cuckoo_history(ctx, 120);
+                ctx.case("qf"); structs::qf_history(ctx, 100);
+                ctx.case("res"); structs::res_history(ctx);
+                ctx.case("lossy"); structs::lossy_history(ctx, 150);
+                ctx.case("heap"); structs::heap_history(ctx, 60);
+                ctx.case("td"); structs::td_history(ctx, 120);
+            }
+        }
         _ => panic!("no generator for {}", prop),
     }
 }
